@@ -4,7 +4,7 @@
    check_case instantiates the Section parameters of the model with these recorded tables and compares. *)
 From Coq Require Import List String Bool NArith ZArith.
 Import ListNotations.
-From VF Require Export common.Json gen.Gen_C07 C07.Model C07.StrictModel C07.ParseModel.
+From VF Require Export common.Json gen.Gen_C07 C07.Model C07.StrictModel C07.ParseModel C07.JwtModel.
 Open Scope string_scope.
 Open Scope list_scope.
 
@@ -117,6 +117,40 @@ Definition refined (e : option envelope) (claim : obj) : obj :=
   | Some (EnvVC iss jti nbf iat exp fmt) => refine_vc (zlookup fmt) iss jti nbf iat exp claim
   end.
 
+(* ---- the JWS-secured JWT forms (JwtModel.v): what ParseCredential / ParsePresentation returned for a token, given what
+        the real jwt.IsJWS and the real JWS verification (C08's subject) answered on the strings involved; and the payload
+        the real JWTClaims built for a credential object ---- *)
+Record jcase := {
+  j_vc : bool;                                       (* a credential (ParseCredential) or a presentation *)
+  j_input : vc_input;                                (* the bytes: a (quoted) string, or a JSON object *)
+  j_isjws : list string;                             (* strings jwt.IsJWS accepts *)
+  j_open : list (string * obj);                      (* token -> decoded payload, when the signature verified *)
+  j_fmt : list (Z * string);                         (* Unix seconds -> RFC3339 (UTC) *)
+  j_obs : option obj;                                (* the members of the returned object; None = refused *)
+  (* issuing: (minimise, sub, the credential / presentation object, date -> seconds, the payload JWTClaims built) *)
+  j_issue : option (bool * string * obj * list (string * Z) * obj) }.
+
+Definition check_jcase (j : jcase) : bool :=
+  let is_jws := fun t => mem_str t (j_isjws j) in
+  let open := fun t => slookup (j_open j) t in
+  let model := if j_vc j then parse_jwt_vc is_jws open (zlookup (j_fmt j)) (j_input j)
+               else match j_input j with InText t => parse_jwt_vp is_jws open t | InObj _ => None end in
+  match model with
+  | None => true                                     (* not the JWS path *)
+  | Some None => match j_obs j with None => true | Some _ => false end
+  | Some (Some c) => match j_obs j with Some o => same_members c o | None => false end
+  end
+  && match j_issue j with
+     | None => true
+     | Some (min, sub, m, secs, payload) =>
+         if j_vc j then
+           match jwt_claims (fun d => slookup secs d) min sub m with
+           | Some p => same_members p payload
+           | None => false
+           end
+         else same_members (jwt_pres_claims min m) payload
+     end.
+
 Record case := {
   c_env : env;
   c_doc : obj;
@@ -124,9 +158,10 @@ Record case := {
   c_strict : option (option json * bool);            (* compaction result, and whether strict validation passed *)
   (* string members of the accepted typed object: (field, top-level members in the order of the bytes, value found) *)
   c_parsed : list (string * list (string * json) * json);
-  c_envl : option envelope }.                        (* Some: c_doc is the vp / vc claim of an unsecured JWT *)
+  c_envl : option envelope;                          (* Some: c_doc is the vp / vc claim of an unsecured JWT *)
+  c_jwt : option jcase }.                            (* Some: a JWS-secured JWT case (the other fields are unused) *)
 
-Definition check_case (c : case) : bool :=
+Definition check_ld_case (c : case) : bool :=
   let d := refined (c_envl c) (c_doc c) in
   outcome_match (run_check (c_env c) d) (c_obs c)
   && recorded_explained (c_env c) d
@@ -144,6 +179,9 @@ Definition check_case (c : case) : bool :=
      | _, _ => true
      end.
 
+Definition check_case (c : case) : bool :=
+  match c_jwt c with Some j => check_jcase j | None => check_ld_case c end.
+
 Fixpoint mismatches_from (i : nat) (cs : list case) : list nat :=
   match cs with
   | [] => []
@@ -154,5 +192,8 @@ Definition mismatches := mismatches_from 0.
 (* shorthands for the generated case files *)
 Definition E := Build_env.
 Definition DI := Build_dienv.
-Definition K := Build_case.
+Definition K (e : env) (d : obj) (o : outcome) (s : option (option json * bool))
+             (p : list (string * list (string * json) * json)) (v : option envelope) : case := Build_case e d o s p v None.
+Definition J := Build_jcase.
 Definition no_di : dienv := DI [] [] [] [] ("", "", "").
+Definition KJ (j : jcase) : case := Build_case (E [] [] [] [] [] [] [] false no_di) [] Rejected None [] None (Some j).
